@@ -334,7 +334,9 @@ Section WithMac.
 
   (* Key::compare_signatures *)
   Definition compare_signatures (k : key) (expected provided : bytes) : outcome unit :=
-    if len provided <? k_min k then Err VE_BADTRUNC
+    (* T1 compare_checks_rfc_size: RFC 8945 5.2.2.1 size range first *)
+    if compare_checks_rfc_size && negb (within_len_bounds (k_alg k) (len provided)) then Err VE_FORMERR
+    else if len provided <? k_min k then Err VE_BADTRUNC
     else
       let e := if len provided <? len expected then take (length provided) expected else expected in
       if bytes_eqb e provided then Ok tt else Err VE_BADSIG.
@@ -383,7 +385,8 @@ Section WithMac.
               match compare_signatures k sig (mt_mac t) with
               | Err e => Err (SE_UNSIGNED + (if e =? VE_BADTRUNC then server_code_badtrunc
                                             else if e =? VE_BADKEY then RC_BADKEY
-                                            else server_code_badsig))
+                                            else if e =? VE_BADSIG then server_code_badsig
+                                            else server_code_other))
               | Panic s => Panic s
               | OutOfFuel => OutOfFuel
               | Ok _ =>
